@@ -55,6 +55,7 @@ class _Tunnel(Interface):
     """Class for handling KNX/IP tunnels."""
 
     __slots__ = (
+        "_connecting",
         "_data_endpoint_addr",
         "_disconnecting",
         "_heartbeat",
@@ -93,6 +94,7 @@ class _Tunnel(Interface):
         self._sequence_number_used = False
         self.cemi_received_callback = cemi_received_callback
         self._data_endpoint_addr: tuple[str, int] | None = None
+        self._connecting = False
         self._disconnecting = False
         self._heartbeat = ConnectionHeartbeat(
             name="Tunnel",
@@ -136,6 +138,7 @@ class _Tunnel(Interface):
         Raise CommunicationError when not successful.
         """
         self._disconnecting = False
+        self._connecting = True
         self.xknx.connection_manager.connection_state_changed(
             XknxConnectionState.CONNECTING, self.connection_type
         )
@@ -157,6 +160,8 @@ class _Tunnel(Interface):
             raise CommunicationError(
                 "Tunnel connection could not be established"
             ) from ex
+        finally:
+            self._connecting = False
 
         self._tunnel_established()
         self.xknx.connection_manager.connection_state_changed(
@@ -173,6 +178,9 @@ class _Tunnel(Interface):
         """Prepare for reconnection or shutdown when the connection is lost. Callback."""
         if self._disconnecting:
             # the user is disconnecting - `disconnect()` cleans up; don't reconnect
+            return
+        if self._connecting:
+            # a pending `connect()` has no tunnel to lose - it reports the failure itself
             return
         if self.auto_reconnect:
             # _tunnel_lost might be called multiple times when the transport receives
